@@ -4859,6 +4859,12 @@ int get_type_sort(CPPType *type) {
   int answer = 0;
 // printf("    %s\n",type->get_local_name().c_str());
 
+  // A const reference to a simple type accepts the same arguments as the
+  // simple type itself, so it must be ranked like it.
+  if (TypeManager::is_const_ref_to_simple(type)) {
+    return get_type_sort(TypeManager::unwrap_const_reference(type));
+  }
+
   // The highest numbered one will be checked first.
   if (TypeManager::is_nullptr(type)) {
     return 15;
